@@ -5,7 +5,6 @@ import (
 	"encoding/json"
 	"fmt"
 	"os"
-	"os/exec"
 	"reflect"
 	"runtime"
 	"strconv"
@@ -441,11 +440,12 @@ func runC08Cyc(c *harness.Ctx, idx int) {
 	c.Tag("episode:cyclic-families-subprocess")
 	c.Shape(fmt.Sprint("cyc", c.Seed, idx))
 	c.NonTrivial()
-	exe, _ := os.Executable()
-	cmd := exec.Command(exe, "-sub", fmt.Sprintf("c08cyc|%d|%d", c.Seed, idx))
-	var out, errb bytes.Buffer
-	cmd.Stdout, cmd.Stderr = &out, &errb
-	err := cmd.Run()
+	outB, errB, err, hung := runSub(fmt.Sprintf("c08cyc|%d|%d", c.Seed, idx), nil, 10*time.Minute)
+	if hung {
+		c.Violation("no-progress", "C08/cyclic-no-progress", "fresh-process episode made no progress for 10 minutes (deadlock?): %s", clipStr(string(errB), 3000))
+		return
+	}
+	out, errb := bytes.NewBuffer(outB), bytes.NewBuffer(errB)
 	var res c08CycResult
 	if jerr := json.Unmarshal(out.Bytes(), &res); err != nil || jerr != nil {
 		es := errb.String()
